@@ -6,7 +6,8 @@
    assignment, augmented assignment, del, statement-level mutator call) under nrel/hive/{state,model,dispatcher,util,runner,
    initialization,reporting core} writes into a fresh local object, annotates an exception, initialises self in __init__, or lies
    in a function of the reconciled non-state regions (Model/Heap.v `allowed`); and no record type is a mutable dataclass except
-   the reporting summary.  NOT proved: that the syntactic inventory abstracts Python faithfully (translator, trusted) and that
+   the reporting summary; and (C16_no_hidden_state_read, second sentence of the property) no function outside the scenario samplers
+   of initialisation reads the `random` streams, the wall clock or os entropy.  NOT proved: that the syntactic inventory abstracts Python faithfully (translator, trusted) and that
    CPython enforces frozenness of NamedTuple / frozen dataclass / immutables.Map / frozenset / tuple (trusted).  The implementation
    side is decided by harness/eng_c16.py: deep fingerprints of retained states before and after later operations, and replaying a
    saved state twice. *)
@@ -24,7 +25,9 @@ Theorem C16_no_external_mutation : forallb mut_site_ok mut_sites = true.
 Proof. vm_compute. reflexivity. Qed.
 Theorem C16_frozen_types : forallb record_ok record_types = true.
 Proof. vm_compute. reflexivity. Qed.
+Theorem C16_no_hidden_state_read : forallb hidden_site_ok hidden_sites = true.
+Proof. vm_compute. reflexivity. Qed.
 Theorem C16_step_is_a_function : forall env s o s1 s2, step_op env s o = s1 -> step_op env s o = s2 -> s1 = s2.
 Proof. intros. congruence. Qed.
 Print Assumptions C16_frame. Print Assumptions C16_no_external_mutation.
-Print Assumptions C16_frozen_types. Print Assumptions C16_step_is_a_function.
+Print Assumptions C16_frozen_types. Print Assumptions C16_step_is_a_function. Print Assumptions C16_no_hidden_state_read.
